@@ -1,6 +1,6 @@
 // C07 stage 2 harness: the private state of the REAL PIP solver for seeded small fresh problems.
 //
-//   c07_core --seed S --first A --last B [--cpu SEC]
+//   c07_core --seed S --first A --last B [--cpu SEC]        (A may be negative: ids -1 .. -3 are the fixed corpus)
 //
 // For every case: the tableau of the root PIP_Solution_Node as `update_tableau` builds it (before `solve`),
 // the initial context, then `PIP_Problem::solve()` and the whole resulting tree read through the node
@@ -192,11 +192,37 @@ static Constraint shaped_row(Rng& r, const Data& d) {
   }
 }
 
+static void solve_and_journal(const Data& d, int cut, int piv);
+
+// the fixed corpus (negative case ids): witnesses of findings
+static void fixed_case(long id, Data& d) {
+  Variable A(0), B(1), C(2), D(3), E(4);
+  switch (id) {
+    case -1: // KF-C07-12: weak NEGATIVE of the second sign refinement, PIVOT_ROW_STRATEGY_MAX_COLUMN
+      d.dim = 5; d.is_param = { false, false, false, true, true };
+      d.cs.push_back(4 * A + C + E - 3 == 0); d.cs.push_back(C - E - 3 >= 0);
+      d.cs.push_back(2 * B + 2 * C - 3 * D - 3 == 0); d.cs.push_back(B + 2 * C - 2 * E + 3 >= 0);
+      solve_and_journal(d, 0, 1); break;
+    case -2: // the same under the default strategies (right answer)
+      d.dim = 5; d.is_param = { false, false, false, true, true };
+      d.cs.push_back(4 * A + C + E - 3 == 0); d.cs.push_back(C - E - 3 >= 0);
+      d.cs.push_back(2 * B + 2 * C - 3 * D - 3 == 0); d.cs.push_back(B + 2 * C - 2 * E + 3 >= 0);
+      solve_and_journal(d, 0, 0); break;
+    case -3: // class documentation example
+      d.dim = 4; d.is_param = { false, false, true, true };
+      d.cs.push_back(3 * B >= -2 * A + 8); d.cs.push_back(B <= 4 * A - 4); d.cs.push_back(B <= D); d.cs.push_back(A <= C);
+      solve_and_journal(d, 0, 0); break;
+    default: J.line("end"); break;
+  }
+}
+static const long N_FIXED = 3;
+
 static void one_case(uint64_t seed, long id) {
   Rng r(seed * 7000003ull + (uint64_t) id);
   { OS o; o << "case " << id; J.line(o.str()); }
   Data d;
-  dimension_type nv = 1 + r.below(3), np = r.below(3);
+  if (id < 0) { fixed_case(id, d); return; }
+  dimension_type nv = 1 + r.below(3), np = r.chance(1, 5) ? 0 : 1 + r.below(2);
   d.dim = nv + np;
   d.is_param.assign(d.dim, false);
   if (r.chance(3, 4)) for (dimension_type i = nv; i < d.dim; ++i) d.is_param[i] = true;
@@ -205,10 +231,14 @@ static void one_case(uint64_t seed, long id) {
   unsigned n = 1 + r.below(5);
   for (unsigned i = 0; i < n; ++i) {
     unsigned k = r.below(10);
-    d.cs.push_back((k < 5) ? shaped_row(r, d) : (k < 7 && d.np() > 0) ? rnd_row(r, d, true, true) : rnd_row(r, d, false, true));
+    d.cs.push_back((k < 6) ? shaped_row(r, d) : (k < 8 && d.np() > 0) ? rnd_row(r, d, true, true) : rnd_row(r, d, false, true));
   }
   int cut = r.chance(1, 2) ? 0 : (int) r.below(3);
   int piv = r.chance(1, 2) ? 0 : 1;
+  solve_and_journal(d, cut, piv);
+}
+
+static void solve_and_journal(const Data& d, int cut, int piv) {
   {
     OS o; o << "prob " << d.dim << " " << d.np();
     for (dimension_type i = 0; i < d.dim; ++i) if (d.is_param[i]) o << " " << i;
